@@ -5,7 +5,7 @@
    TriangularMesh.to_TriangleCollection; they are tied to /repo by the correspondence of harness/props/C13.py.
    NOT proved here (searched numerically only): identities between different closed forms
    (Cuboid = mesh = tetrahedra, Cylinder = sum of segments, Polyline -> Circle). *)
-From Coq Require Import ZArith Reals List Bool.
+From Coq Require Import ZArith Reals List Bool Floats.
 From MV Require Import Lib.Rigid Lib.OctZ Gen.GenCuboid Model.ReprModel Model.ReprExec Proofs.ReprProofs Proofs.ReprExecProofs
   Proofs.ReprCuboid Proofs.ReprUnique.
 Import ListNotations.
@@ -63,6 +63,20 @@ Theorem C13_full_segment_M :
     vdivs (@full_cylinder_spec RNum (@cyl_JM_row RNum mu0) FJ x) mu0.
 Proof. exact full_segment_M_R. Qed.
 Print Assumptions C13_full_segment_M.
+
+(* REFUTED in binary64 (genuine defect of the implementation, known_findings/C13.json): the same model run on
+   floats does NOT give J = 0 everywhere in the bore.  The witness is the row BHJM_cylinder_segment_internal
+   receives for CylinderSegment(dimension=(0.8205, 1.222, 1.86, 0, 360), polarization=(0,0,1),
+   position=(0,0,-0.1635)) at the observer (0.2216.., 0.3452.., -0.1635-0.93): full angle, in the bore, one ulp
+   below the plane of the bottom face - and the shortcut returns J = (0, 0, -1). *)
+Theorem C13_full_segment_J_binary64_refuted :
+  @mask_segment FNum bore_witness = false /\
+  (let '((ox, oy, oz), _, (r1, _, h, _, _)) := bore_witness in
+   PrimFloat.ltb (PrimFloat.sqrt (ox * ox + oy * oy)) r1 = true /\
+   PrimFloat.ltb (h / 2) (PrimFloat.abs oz) = true)%float /\
+  @full_cylinder_spec FNum (@cyl_JM_row FNum mu0_f) FJ bore_witness = (0, 0, -1)%float.
+Proof. exact bore_witness_refutes. Qed.
+Print Assumptions C13_full_segment_J_binary64_refuted.
 
 (* B = mu0 H + J is inherited by the shortcut from whatever Cylinder computation satisfies it *)
 Theorem C13_full_segment_BHJ :
